@@ -41,6 +41,10 @@ pub struct JobQueueCore {
 }
 
 pub enum Poll<T> { Ready(T), Pending }
+impl<T> Poll<T> {
+    pub fn is_pending(&self) -> (r: bool) ensures r == (*self is Pending), { match self { Poll::Pending => true, _ => false } }
+    pub fn is_ready(&self) -> (r: bool) ensures r == (*self is Ready), { match self { Poll::Ready(_) => true, _ => false } }
+}
 pub enum JobStatus { NoJobsWaiting, Finished }
 
 // ------------------------------------------------------------------ ghost protocol (DESIGN §3.2)
